@@ -1,11 +1,11 @@
 CONSTANTS
-  NSessions = 4
-  BatchChoices = {0, 1, 2, 3, 4}
+  NSessions = 3
+  BatchChoices = {0, 1, 2, 3}
   Script <- Script3
   ExitOnFlag = FALSE
   LearnOnTerminal = FALSE
   DrainOnEnd = TRUE
-  RewardTotal = TRUE
+  RewardTotal = FALSE
 SPECIFICATION Spec
 INVARIANT NoPhantomLearn
 INVARIANT Attribution
